@@ -252,6 +252,7 @@ class C02(Prop):
         mk("ns-global-twice", "int time; string time;\nvoid f() { time = 1; }\n")
         mk("ns-eof-in-class", "int keys() { return 1; }\nint keys;\nclass keys { int a;")
         mk("ns-then-use", "string write; void write(string s) { }\n", second="mixed f() { return write; }\nmixed g() { return (: write :); }\n")
+        mk("fold-overflow", "int x = 9223372036854775807 + 1;\nint y = 4611686018427387904 * 4;\nint z = -9223372036854775807 - 10;\n")
         mk("two-sources", "void f() { int time; { int time; } }", second="int g() { return time(); }")
         mk("empty", "")
         mk("nul-bytes", "int x;\x00\x00 int y;\n")
